@@ -713,6 +713,12 @@ func (s *Sim) checkNoEventBeforeVerdict(t *Trigger, c *Client, rid string) {
 			return
 		}
 	}
+	if at, gone := c.Revoked[rid]; gone && at >= t.DlvStep {
+		// the direct subscription was ended by an unsubscribe event (the verdict
+		// of an earlier trigger's re-check, or a delete): what the client still
+		// receives for the resource it holds indirectly
+		return
+	}
 	name, query := splitRID(c.expandCID(rid))
 	_, v := s.W.lookup(c.expandCID(rid))
 	if v == nil {
